@@ -1,0 +1,13 @@
+//go:build verif
+
+package vcr
+
+import "github.com/nuts-foundation/nuts-node/vcr/verifier"
+
+// VerifVerifierStore exposes the revocation store of the verifier to the verification harness (fault injection: closing it while the node runs).
+func VerifVerifierStore(v VCR) verifier.Store {
+	if c, ok := v.(*vcr); ok {
+		return c.verifierStore
+	}
+	return nil
+}
